@@ -33,7 +33,7 @@ def suite(w):
 
 def main():
     src, suffixes, pids = sys.argv[1], sys.argv[2], sys.argv[3:]
-    vseed = "/tmp/vseed"
+    vseed = os.environ.get("VSEED", "/tmp/vseed")
     if not os.path.isdir(vseed):
         sh(f"git clone -q /verif {vseed}")
         rc, out = sh(f"{PY} check.py setup", cwd=vseed)
